@@ -15,13 +15,27 @@ Reasons(c) ==
   \cup (IF c.nhosts = 0 THEN {"no-hosts"} ELSE {})
 Refuse(c) == Reasons(c) # {}
 
+\* Keyword values (mechanism names, `disable`, `signed`) can be written in other spellings: another letter case, or
+\* the documented alias `basic` for `local`.  What such a spelling means is the implementation's business - it may be
+\* refused, ignored or understood - but whatever it is taken to mean, the gateway that ends up RUNNING must not be in
+\* one of the unsafe states.  e is what was observed of a running gateway by probing it from outside:
+\*   [tlsOff, auth (mechanisms that answer), tokenAuth \in {"yes","no","unknown"}, signedNoKey (signed selection
+\*    accepting a query token made with the empty key)]
+Spellings == {"canon", "mixed", "upper", "alias"}
+EffReasons(e) ==
+  (IF "openid" \in e.auth /\ e.tokenAuth = "no" THEN {"openid-without-tokenauth"} ELSE {})
+  \cup (IF "local" \in e.auth /\ e.tlsOff THEN {"local-without-tls"} ELSE {})
+  \cup (IF "ntlm" \in e.auth /\ "kerberos" \in e.auth THEN {"ntlm-with-kerberos"} ELSE {})
+  \cup (IF e.signedNoKey THEN {"signed-without-querykey"} ELSE {})
+Unsafe(e) == EffReasons(e) # {}
+
 \* a key of the configured length is used as it is only when it has exactly 32 characters
 KeyKept(len) == len = 32
 
 \* ---- the lattice as a model: every configuration is an initial state ----------
 VARIABLE c
 Cfgs == [auth : (SUBSET Auths) \ {{}}, tlsDisabled : BOOLEAN, tokenAuth : BOOLEAN, signedSel : BOOLEAN, queryKey : BOOLEAN,
-         keytab : BOOLEAN, nhosts : 0..2]
+         keytab : BOOLEAN, nhosts : 0..2, spell : Spellings]
 Init == c \in Cfgs
 Next == UNCHANGED c
 Spec == Init /\ [][Next]_c
